@@ -102,6 +102,7 @@ FRAGMENTS = [
     ('partition', dict(fclass='ssc', steps=['grad', 'grad'], partition=2)),
     ('composite', dict(fclass='convex', second='sc', steps=['grad', 'prox'])),
     ('qg', dict(fclass='qg', steps=['grad'], stationary=False)),
+    ('null-accumulate', dict(fclass='ssc', steps=['grad', 'grad'], null_accumulate=True)),
 ]
 ENDINGS = ['solved', 'solved-verbose', 'failed', 'exception', 'abandoned']
 
@@ -193,6 +194,12 @@ def prog(env, case):
         name, spec = FRAGMENTS[fi]
         trace.append("%s/%s" % (name, ENDINGS[ei]))
         run_fragment(env, name, spec, ENDINGS[ei], backend, k)
+    # the exported module-level zeros are still zeros after the history
+    from PEPit import null_expression, null_point
+    env.check(len(null_expression.decomposition_dict) == 0 and len(null_point.decomposition_dict) == 0,
+              "after the history the shared module-level zero objects are no longer zero: null_expression has %d term(s), "
+              "null_point %d" % (len(null_expression.decomposition_dict), len(null_point.decomposition_dict)),
+              signature=tag + ":null-objects")
     # B again.  With release='mid' the user's last references to all earlier problems (B#1 and the fragments) are dropped
     # while B#2 is half built, and the garbage collector runs there - a finalizer of an old problem must not disturb it.
     bspec2 = dict(bspec)
@@ -230,6 +237,7 @@ BMODELS = [
     ('partition', dict(fclass='ssc', steps=['grad'], partition=2)),
     ('composite', dict(fclass='convex', second='sc', steps=['grad', 'prox'])),
     ('three-functions', dict(fclass='ssc', second='convex', steps=['grad', 'prox'], unused=True)),
+    ('null-accumulate', dict(fclass='ssc', steps=['grad'], null_accumulate=True, lmis=['nonsym-const'], lmi_metric=False)),
 ]
 
 
@@ -242,6 +250,10 @@ def cases(tier):
             for fi in range(len(FRAGMENTS)):
                 if tier == 'quick' and ((be == 'mosek' and bname in ('composite', 'gd-cons', 'quad', 'three-functions'))
                                         or (be == 'cvxpy' and bname in ('linop', 'composite'))):
+                    continue
+                if tier == 'quick' and bname == 'null-accumulate' and (be == 'mosek' or fi not in (0, 1, len(FRAGMENTS) - 1)):
+                    continue
+                if tier == 'quick' and fi == len(FRAGMENTS) - 1 and bname not in ('null-accumulate', 'gd-cons', 'lmi'):
                     continue
                 cs.append(dict(id="%s-%s-A%d" % (bname, be, fi), bname=bname, bspec=bspec, backend=be, k=k, forced=[fi],
                                input_zero_tests='generic', output_branches='first', verbose2=fi % 2))
